@@ -232,6 +232,20 @@ func (cd *codeStore) PropagateKMV(top int, save *int, reg *int, inc int) {
 	*reg = *reg + inc
 }
 
+func (cd *codeStore) PropagateK(top int, save *int, reg *int, inc int) {
+	lastinst := cd.Last()
+	if opGetArgA(lastinst) >= top && opGetOpCode(lastinst) == OP_LOADK {
+		cindex := opGetArgBx(lastinst)
+		if cindex <= opMaxIndexRk {
+			cd.Pop()
+			*save = opRkAsk(cindex)
+			return
+		}
+	}
+	*save = *reg
+	*reg = *reg + inc
+}
+
 func (cd *codeStore) PropagateMV(top int, save *int, reg *int, inc int) {
 	lastinst := cd.Last()
 	if opGetArgA(lastinst) >= top {
@@ -731,8 +745,14 @@ func compileAssignStmtLeft(context *funcContext, stmt *ast.AssignStmt) (int, []*
 			acs = append(acs, &assigncontext{ec, 0, 0, false, false})
 		case *ast.AttrGetExpr:
 			ac := &assigncontext{&expcontext{ecTable, regNotDefined, 0}, 0, 0, false, false}
-			// operand A of SETTABLE is a register, never a constant
-			compileExprWithMVPropagation(context, st.Object, &reg, &ac.ec.reg)
+			if isAssignedLocal(context, stmt, st.Object) {
+				// the statement also stores into this local: index the value it has now
+				ac.ec.reg = reg
+				reg += compileExpr(context, reg, st.Object, ecnone(0))
+			} else {
+				// operand A of SETTABLE is a register, never a constant
+				compileExprWithMVPropagation(context, st.Object, &reg, &ac.ec.reg)
+			}
 			ac.keyrk = reg
 			reg += compileExpr(context, reg, st.Key, ecnone(0))
 			if _, ok := st.Key.(*ast.StringExpr); ok {
@@ -745,6 +765,21 @@ func compileAssignStmtLeft(context *funcContext, stmt *ast.AssignStmt) (int, []*
 		}
 	}
 	return reg, acs
+} // }}}
+
+// isAssignedLocal reports whether expr is a local variable that is itself
+// one of the targets of the assignment stmt.
+func isAssignedLocal(context *funcContext, stmt *ast.AssignStmt, expr ast.Expr) bool { // {{{
+	ident, ok := expr.(*ast.IdentExpr)
+	if !ok || getIdentRefType(context, context, ident) != ecLocal {
+		return false
+	}
+	for _, lhs := range stmt.Lhs {
+		if target, ok := lhs.(*ast.IdentExpr); ok && target.Value == ident.Value {
+			return true
+		}
+	}
+	return false
 } // }}}
 
 func compileAssignStmtRight(context *funcContext, stmt *ast.AssignStmt, reg int, acs []*assigncontext) (int, []*assigncontext) { // {{{
@@ -783,7 +818,13 @@ func compileAssignStmtRight(context *funcContext, stmt *ast.AssignStmt, reg int,
 		if ec.ctype == ecTable {
 			regbefore := reg
 			if _, ok := expr.(*ast.LogicalOpExpr); !ok {
-				context.Code.PropagateKMV(context.RegTop(), &ac.valuerk, &reg, reginc)
+				if namesassigned == lennames-1 && lenexprs <= lennames {
+					context.Code.PropagateKMV(context.RegTop(), &ac.valuerk, &reg, reginc)
+				} else {
+					// a local's value is read now: the expressions and stores
+					// that follow in this statement may change the local
+					context.Code.PropagateK(context.RegTop(), &ac.valuerk, &reg, reginc)
+				}
 			} else {
 				ac.valuerk = idx
 				reg += reginc
